@@ -178,6 +178,8 @@ class World:
         st = self.s.send(op)
         if st is None:
             return None
+        if st.line.startswith("ok"):
+            return st
         self.s_deadline = None
         if st.sel:
             self.s_deadline = self.ms + max(1, st.sel.get("to", 10000000) // 1000)
@@ -193,6 +195,8 @@ class World:
         line = self.c.send(op)
         if line is None:
             return None
+        if line == "ok":
+            return []
         events, sel, st = parse_cli(line)
         self.c_sel, self.c_state = sel, st or self.c_state
         self.c_deadline = None if sel is None else self.ms + max(1, sel["to"] // 1000)
